@@ -188,6 +188,19 @@ def gen_plan(rng, idx):
     # targets
     lit = [w for d in docs for w in docgen.literal_words(d)]
     targets = rng.sample(lit, min(len(lit), rng.randrange(1, 13))) if lit else []
+    if not plain_input and rng.random() < 0.25:
+        # the text ends directly with a macro that generates a word
+        d = rng.choice(docs)
+        while d and d[-1]['s'].endswith('\n') and not d[-1]['w'] and \
+                not d[-1].get('foreign'):
+            d.pop()             # no blank fragment behind it
+        d.append(docgen.f_gen_macro_end(rng, W, {'lang': lang}))
+    gen = [w for d in docs for w in docgen.generated_words(d)]
+    if gen and rng.random() < 0.5:
+        # words of generated text are flagged too: their place is not judged
+        # (C04), but the reports must agree between routes and stay ordered
+        targets += rng.sample(gen, min(len(gen), rng.randrange(1, 4)))
+        rng.shuffle(targets)
     phrases = []
     for d in docs:
         for f in d:
@@ -574,7 +587,14 @@ def evaluate(plan):
             probes['server_field_override'] = 1
 
     # ---- expected flags per unit -------------------------------------
-    targets = plan['peer']['targets']
+    gen_words = set()
+    if route == 'server':
+        for r_ in plan['requests']:
+            gen_words.update(docgen.generated_words(r_['doc']['frags']))
+    else:
+        for n_ in plan['names']:
+            gen_words.update(docgen.generated_words(plan['files'][n_]['frags']))
+    targets = [t for t in plan['peer']['targets'] if t not in gen_words]
     dups = set(plan['peer'].get('dup', []))
     expected = []       # per unit: list of (word, offset, length)
     for ui, (label, tex, eff) in enumerate(us):
@@ -626,7 +646,10 @@ def evaluate(plan):
         offs = [r['offset'] for r in reps]
         if any(a > b for a, b in zip(offs, offs[1:])):
             return viol('order', unit=label, offsets=offs)
-        sim = [r for r in reps if r.get('word') is not None]
+        sim = [r for r in reps if r.get('word') is not None
+               and r['word'] not in gen_words]
+        if any(r.get('word') in gen_words for r in reps):
+            probes['generated_word_flagged'] = 1
         want_ms = sorted((w, o_, l) for (w, o_, l) in expected[ui])
         # HTML lists overlapping messages separately, with a line number only:
         # pair each with an expected flag of that word in that line which no
@@ -681,6 +704,51 @@ def evaluate(plan):
                 probes['nonascii_before_word'] = 1
             if '\n' not in tex[src:]:
                 probes['match_in_last_line_without_newline'] = 1
+    # ---- 5. agreement between the server emulation and the JSON report of
+    #         the same text given as a file (every match, also those on
+    #         generated text)
+    if route == 'server':
+        for ui, (label, tex, eff) in enumerate(us):
+            req = plan['requests'][ui]
+            if req.get('crlf') or any(k.startswith('http_transient')
+                                      for k in obs['fired']):
+                continue
+            targv = [a for a in plan['argv']]
+            del targv[targv.index('--as-server'):targv.index('--as-server') + 2]
+            if '--language' in targv:
+                targv[targv.index('--language') + 1] = eff['lang']
+            else:
+                targv += ['--language', eff['lang']]
+            tfiles = dict(plan['files'])
+            tfiles['twin.tex'] = {'text': tex}
+            twin = {'kind': 'shell', 'argv': targv + ['--output', 'json',
+                                                      'twin.tex'],
+                    'files': tfiles, 'peer': plan['peer'], 'names': ['twin.tex']}
+            tobs = runner.execute(twin)
+            runs += 1
+            if runner.is_harness_error(tobs):
+                return core.harness('C14 twin: ' + tobs['status'])
+            if tobs['status'] not in ('ok', 'exit:0'):
+                probes['twin_no_answer'] = 1
+                continue
+            try:
+                tdocs = shellscen.parse_json_report(tobs['stdout'])
+                # only what the proofreader flagged (the shell's own
+                # --single-letters / --equation-punctuation patterns are fixed
+                # by the command-line language when the server starts)
+                tw = sorted((m['offset'], m['length'])
+                            for m in tdocs[0]['matches']
+                            if word_of(m.get('message')) is not None)
+            except (ValueError, KeyError, IndexError, TypeError):
+                return viol('agreement:twin-report-unparsable', unit=label)
+            sv = sorted((r['offset'], r['length']) for r in got[ui]
+                        if r.get('word') is not None)
+            if sv != tw:
+                return viol('agreement:server-vs-json-file', unit=label,
+                            server=sv[:8], json_file=tw[:8],
+                            text_tail=tex[-60:])
+            probes['server_json_agreement_checked'] = \
+                probes.get('server_json_agreement_checked', 0) + 1
     if plan['peer'].get('targets') != sorted(plan['peer'].get('targets', [])):
         probes['peer_reordered'] = 1
     if o['repl']:
